@@ -33,7 +33,11 @@ out["tables"]["x86_64"] = {"uapi": hdr(inc + 'unistd_64.h')}
 out["tables"]["i386"] = {"uapi": hdr(inc + 'unistd_32.h')}
 x32 = hdr(inc + 'unistd_x32.h')
 out["tables"]["x32"] = {"uapi": {k: v & ~0x40000000 for k, v in x32.items()}}
-out["tables"]["arm"] = {}
+# ARM-private calls: arch/arm/include/uapi/asm/unistd.h defines them as (__ARM_NR_BASE + n) with
+# __ARM_NR_BASE = __NR_SYSCALL_BASE + 0x0f0000 (EABI base 0). No header of this x86 image and neither Go table lists
+# them, so they are transcribed here by hand from the kernel source.
+out["tables"]["arm"] = {"kernel_arm_private_transcribed": {"breakpoint": 0x0f0001, "cacheflush": 0x0f0002, "usr26": 0x0f0003,
+                                                             "usr32": 0x0f0004, "set_tls": 0x0f0005, "get_tls": 0x0f0006}}
 out["tables"]["aarch64"] = {}
 
 def gosys(path):
